@@ -166,7 +166,7 @@ func (c listCfg) build() *listInst {
 	if c.Deco {
 		decorate(s).SetErr(errCat).SetValidityPolicy(func(...any) error { return errCat })
 	}
-	in := &listInst{s: s, m: m, shape: c.Tok, toggles: c.PolRej || c.PolSelf || c.Deco}
+	in := &listInst{s: s, m: m, shape: c.Tok, toggles: (c.PolRej || c.PolSelf || c.Deco) && !c.Neg && !c.Fwd} // (machines that start with an index option on keep it: the toggling ones reach those settings anyway)
 	if c.Prefill > 0 {
 		vals := make([]any, c.Prefill)
 		for i := range vals {
@@ -535,9 +535,9 @@ func c01Configs(c *Ctx) []listCfg {
 		out = append(out, listCfg{Kind: kindNames[i%5], FIFO: i%2 == 1, MaxL: n + 3, Prefill: n},
 			listCfg{Kind: kindNames[(i+2)%5], FIFO: i%2 == 0, Cap: n + 2, Neg: true, Fwd: true, MaxL: n + 3, Prefill: n, Mtx: i%2 == 0})
 	}
-	// ... and stacks that are mostly nil: a value, 47..128 nil elements, a value
-	for i, n := range []int{49, 51, 52, 53, 66, 130} {
-		if c.Quick() && i%2 == 1 && n != 53 {
+	// ... and stacks that are mostly nil: 49..129 nil elements after, before or between values
+	for i, n := range []int{51, 52, 53, 130} {
+		if c.Quick() && n != 52 && n != 53 {
 			continue
 		}
 		for run := 1; run <= 3; run++ {
